@@ -3,7 +3,7 @@ From Mux Require Import Model.Bytes Model.Wire.
 From Mux Require Suites.S20 Suites.SRT Suites.SMatch.
 
 Definition rt_ids : list bytes :=
-  map bs ["RT"; "C01"; "C02"; "C03"; "C04"; "C05"; "C09"; "C10"; "C17"; "C18"; "C19"]%string.
+  map bs ["RT"; "C01"; "C02"; "C03"; "C04"; "C05"; "C08"; "C09"; "C10"; "C11"; "C12"; "C17"; "C18"; "C19"]%string.
 
 Definition run_suite (id : bytes) (ls : list line) : list line :=
   if beqb id (bs "C20") then run_case S20.suite20 ls
